@@ -59,6 +59,7 @@ def run(chk: Check) -> None:
             chk.ob("R17.3", construct, ok, loc,
                    msg + " (duplicate-UUID detection in Node._from_protobuf relies on it)", facts)
     _decoders_use_primitives(chk)
+    chk.floor("R17.5", "decoders of nodes with children", register_before_children(chk, "R17.5"), 3)
     _validation(chk)
     _no_swallow(chk)
     # "can be saved again": every loaded table keeps its bytes and type (C14's loader half)
@@ -182,6 +183,74 @@ def _version(chk: Check) -> None:
     chk.ob("R17.2", "IR._from_protobuf:callers", set(callers) <= {"IR.load_protobuf_file"} and bool(callers),
            ir.loc(), "IR._from_protobuf is called from %s; only load_protobuf_file (behind the "
            "header checks) may" % callers, 1)
+
+
+def register_before_children(chk: Check, rule: str) -> int:
+    """A decoder of a node that has child nodes enters the new node in the UUID table *before* it
+    decodes any child: ``Node._from_protobuf`` detects a UUID that is already taken by looking it
+    up, so a child carrying its parent's UUID is only rejected if the parent is already there.
+    (Children decoded inside the constructor call — a generator passed to it — are decoded before
+    the registration that follows the call.)"""
+    repo = chk.repo
+    node = repo.cls("Node")
+    n = 0
+    for c in repo.classes.values():
+        if not c.is_subclass_of(node) or c.name == "IR":
+            continue            # (IR.__init__ registers the IR itself)
+        f = c.methods.get("_decode_protobuf")
+        if f is None:
+            continue
+        # child decoders: <NodeClass>._from_protobuf(...) anywhere below f (closures, generators)
+        kids = []
+        for x in ast.walk(f.node):
+            if isinstance(x, ast.Call) and isinstance(x.func, ast.Attribute) and x.func.attr == "_from_protobuf":
+                d = dotted(x.func.value)
+                k = repo.resolve_name(f.module, ".".join(d), f.cls) if d else None
+                if k is not None and (k is node or k.is_subclass_of(node)):
+                    kids.append(x)
+        if not kids:
+            continue
+        chk.saw(f)
+        n += 1
+        cfg = CFG(f.node)
+        made = {t.id for a in walk_no_nested(f.node) if isinstance(a, ast.Assign) and isinstance(a.value, ast.Call)
+                and attr_path(a.value.func) in (("cls",), (c.name,)) for t in a.targets if isinstance(t, ast.Name)}
+        regs = cfg.nodes_where(lambda y: isinstance(y, ast.Call) and isinstance(y.func, ast.Attribute)
+                               and y.func.attr == "_add_to_uuid_cache" and isinstance(y.func.value, ast.Name)
+                               and y.func.value.id in made)
+        nested = f.nested()
+
+        def sites(x: ast.AST, depth: int = 0) -> List[ast.AST]:
+            """the statements of f in which x is evaluated"""
+            cur = x
+            par = getattr(cur, "_parent", None)
+            while par is not None and par is not f.node:
+                if isinstance(par, ast.FunctionDef):
+                    if depth > 3:
+                        return []
+                    out: List[ast.AST] = []
+                    for y in ast.walk(f.node):
+                        if isinstance(y, ast.Call) and isinstance(y.func, ast.Name) and y.func.id == par.name \
+                                and par.name in nested:
+                            out.extend(sites(y, depth + 1))
+                    return out
+                cur, par = par, getattr(par, "_parent", None)
+            return [x]
+        bad = None
+        for k in kids:
+            for s_ in sites(k):
+                try:
+                    ns = cfg.node_of(s_)
+                except AnalysisError:
+                    continue
+                if not regs or not any(cfg.dominates(r, ns) and r != ns for r in regs):
+                    bad = s_
+        chk.ob(rule, "%s:registers-before-decoding-children" % f.qualname, bad is None,
+               f.loc(bad) if bad is not None else f.loc(),
+               "%s decodes a child node (%s) before the new node is in the UUID table: a child that carries "
+               "its parent's UUID is not rejected and replaces the parent in the table"
+               % (f.qualname, unparse(bad)[:60] if bad is not None else "-"), 2)
+    return n
 
 
 def _decoders_use_primitives(chk: Check) -> None:
@@ -325,6 +394,12 @@ def _validation(chk: Check) -> None:
              any(k.arg == "bytes" for k in c.keywords) for c in walk_no_nested(nf.node))
     chk.ob("R17.6", "Node._from_protobuf:uuid-validated", ok, nf.loc(),
            "node UUIDs must be built with UUID(bytes=...), which rejects wrong lengths", 1)
+    # ... and never made up: a node whose stored identifier is replaced cannot be referred to
+    made_up = [(g, c_) for g in repo.all_functions() if _is_reader(g) for c_ in walk_no_nested(g.node)
+               if isinstance(c_, ast.Call) and (dotted(c_.func) or ("",))[-1] in ("uuid4", "uuid1", "getnode")]
+    chk.ob("R17.6", "readers:no-fresh-uuid", not made_up, made_up[0][0].loc(made_up[0][1]) if made_up else nf.loc(),
+           "%s generates a UUID while loading: identifiers come from the file only"
+           % (made_up[0][0].qualname if made_up else "-"), 1)
     # enum-typed fields through their Enum
     n = 0
     for m in schema.reachable("IR"):
@@ -367,7 +442,13 @@ def _no_swallow(chk: Check) -> None:
                         caught = [(dotted(h.type) or ("",))[-1]]
                     e2 = h.body[-1].exc
                     raised = (dotted(e2.func if isinstance(e2, ast.Call) else e2) or ("",))[-1]
-                    if "ValueError" in caught and raised != "ValueError":
+                    same_class = isinstance(e2, ast.Call) and isinstance(e2.func, ast.Call)      # type(e)(...)
+                    if caught and raised and raised not in caught and not same_class:
+                        reraises = False        # (a base class or another class: the rejection type changes)
+                    k_ = chk.repo.cls_opt(raised) if raised else None
+                    if caught and raised in caught and not same_class and k_ is not None and chk.repo.subclasses(k_):
+                        # catching a class with subclasses and raising the class itself turns a
+                        # DeserializationError into its base class
                         reraises = False
                 d = dotted(h.type) if h.type is not None else None
                 # the one tolerated fall-back: unknown symbolic-expression attribute numbers
